@@ -221,6 +221,8 @@ def run_equivalences(rec):
 
 def run_shard(rec, seed, shard, tier):
     warnings.filterwarnings("ignore")
+    if shard.get("i", 1) % 2 == 1:
+        real.hostile_prelude(rec)  # a past: nothing the check decides may depend on it
     gs = groups()
     for idx, (mods, base, doc) in enumerate(gs):
         if idx % NSHARDS == shard["i"]:
